@@ -227,6 +227,13 @@ def _mirsym():
         bounds="1-3 sub-partitions from 4 (quick) / 8 (thorough) fixed sets of last-column names; looked-up names of 1-2 (quick) / 0-3 (thorough) symbolic bytes; BTreeMap modelled as a sorted association list",
         spec=sr.SubpartitionKeySpec(), stubs=["BTreeMap::{lower_bound,Cursor::peek_next} -> sorted association list"])
 
+    from .specs import decode as sd
+    for pid, tag in (("C07", "C07.b"), ("C01", "C01.d")):
+        add(f"{tag}/decode_int", pid, "mirsym", Q,
+            "mem_store::column::decode (used by compaction) on every integer codec shape the builder emits ({u8,u16,u32} x {offset 0, offset != 0} x {plain, delta} and i64 x {plain, delta}, each with and without a null map): values decode exactly, a nullable column stays nullable with the same NULL rows",
+            ["mem_store::column::decode"], bounds="2 rows (quick) / 0,1,3 rows + two 9-row nullable shapes (thorough); encoded values, offset and null-map bytes symbolic; Codec::ops stubbed to return the shape's op list; dyn Data modelled as tagged sequences",
+            spec=sd.DecodeIntSpec(), stubs=["Codec::ops -> the codec table of IntegerColumn::create_col for the shape", "dyn Data -> tagged sequences (Vec<T> / NullableVec<T>)"])
+
 
 _mirsym()
 
